@@ -72,7 +72,18 @@ def _obj(seq):
 
 
 def _ew(f, nin):
-    return np.frompyfunc(f, nin, 1)
+    uf = np.frompyfunc(f, nin, 1)
+    if nin != 2:
+        return uf
+
+    def g(a, b):
+        try:
+            return uf(a, b)
+        except ValueError as ex:      # numpy's broadcasting error is torch's RuntimeError
+            if "broadcast" in str(ex):
+                raise RuntimeError("The size of tensor a must match the size of tensor b (%s)" % ex)
+            raise
+    return g
 
 
 def _simp(e):
